@@ -335,6 +335,22 @@ func kinds() []kind {
 				return []sinkSpec{{"file", string(b), both, false}}
 			}, cleanup: func() { _ = os.Remove(f) }}, nil
 		}},
+		// two file loggers of one process on one path (a component each): every record is appended, none overwrites another's
+		{name: "file-two-loggers", class: "lossless", build: func(dir string, rng *rand.Rand) (*built, error) {
+			f := filepath.Join(dir, fmt.Sprintf("c13-%d.log", rng.Int63()))
+			a, err := logs.NewFileOnlyLogger(f, "c13-a")
+			if err != nil {
+				return nil, err
+			}
+			b, err := logs.NewFileOnlyLogger(f, "c13-b")
+			if err != nil {
+				return nil, err
+			}
+			return &built{l: &pairOfLoggers{a: a, b: b}, collect: func() []sinkSpec {
+				c, _ := os.ReadFile(f)
+				return []sinkSpec{{"file", string(c), both, false}}
+			}, cleanup: func() { _ = os.Remove(f) }}, nil
+		}},
 		fromSink("json", func(s *sink) (logs.Loggers, error) { return logs.NewJSONLogger(s, "c13", "source") }),
 		fromSink("logr-funcr", func(s *sink) (logs.Loggers, error) {
 			return logs.NewLogrLogger(funcr.New(func(prefix, args string) { _, _ = s.Write([]byte(prefix + " " + args)) }, funcr.Options{}), "c13")
@@ -459,6 +475,37 @@ func (s *stdPair) SetLogSource(string) error    { return nil }
 func (s *stdPair) SetLoggerSource(string) error { return nil }
 func (s *stdPair) Log(v ...interface{})         { _ = s.o.Output(2, fmt.Sprint(v...)) }
 func (s *stdPair) LogError(v ...interface{})    { _ = s.e.Output(2, fmt.Sprint(v...)) }
+
+// pairOfLoggers hands every other message to the second logger.
+type pairOfLoggers struct {
+	a, b logs.Loggers
+	n    atomic.Int64
+}
+
+func (p *pairOfLoggers) pick() logs.Loggers {
+	if p.n.Add(1)%2 == 0 {
+		return p.a
+	}
+	return p.b
+}
+func (p *pairOfLoggers) Close() error {
+	err := p.a.Close()
+	if e := p.b.Close(); err == nil {
+		err = e
+	}
+	return err
+}
+func (p *pairOfLoggers) Check() error { return p.a.Check() }
+func (p *pairOfLoggers) SetLogSource(s string) error {
+	_ = p.b.SetLogSource(s)
+	return p.a.SetLogSource(s)
+}
+func (p *pairOfLoggers) SetLoggerSource(s string) error {
+	_ = p.b.SetLoggerSource(s)
+	return p.a.SetLoggerSource(s)
+}
+func (p *pairOfLoggers) Log(v ...interface{})      { p.pick().Log(v...) }
+func (p *pairOfLoggers) LogError(v ...interface{}) { p.pick().LogError(v...) }
 
 // loggerWithPreClose reads the sink before Close (string loggers reset their buffer when closed).
 type loggerWithPreClose struct {
